@@ -25,7 +25,12 @@ What runs (props/engine_common.run_engine_check):
     + `tol` (tolerance exceeded inside / after the launch loop: the sequence way of failing a block) + `mixed`; every trace of the real engine must be ACCEPTED by the automaton and satisfy mon_cont_deferred;
   * "keeps being re-run" (liveness, not a trace-safety clause) is MEASURED: a continuous group that is scripted to fail
     at run k >= 2 must be seen making its runs; if no trace at all shows a THIRD run (initial run + two re-runs) of
-    any continuous group the check reports a violation (runContChecks does not re-run).
+    any continuous group the check reports a violation (runContChecks does not re-run);
+  * KNOWN FINDING K1 (how OFTEN the implementation re-runs): harness/cmd/c07k1 runs, in its own process, one block / one
+    sequence / one action of 600 ms with a continuous group of Delay 20 ms (block level, then plan level) whose check fails
+    from its 8th call on: the check is invoked <= 4 times during the action instead of 30 and the scope ends Completed.
+    Reported through the known-findings protocol (KNOWN-FINDING line while listed as known; a violation if not listed;
+    a NOTE if the implementation no longer shows it).  Statement side: props/C07.v, Mech.c07_keeps_rerunning_refuted.
 """
 from vf import framework as fw
 from props import engine_common as ec
@@ -48,6 +53,41 @@ CODES = {
     14: "block: its continuous/deferred run failed but the plan is not Failed with reason Block (or ContCheck of the plan)",
     15: "the reason of the plan Wait returned is not the reason the engine wrote",
 }
+
+
+K1_WHAT = ("continuous checks stall during a long sequence: runContChecks blocks in its send on the capacity-1 result "
+           "channel after at most two re-runs (the channel is read only before a sequence starts and when the scope ends), so a "
+           "failure due at a later run never happens and the scope ends Completed")
+
+
+def check_k1(ctx):
+    """Known finding K1: a deterministic witness run in its own process (harness/cmd/c07k1), at block and at plan level."""
+    cases = ctx.harness("c07k1", ["-work", "600", "-delay", "20", "-failat", "8"], out_name="k1.jsonl", timeout=120)
+    if cases is None:
+        return None
+    wit = [c for c in cases if c.get("kind") == "witness"]
+    for c in cases:
+        if c.get("kind") != "witness":
+            ctx.notes.append("witness K1 (%s) could not be produced on this tree: %s" % (c.get("id"), c.get("note")))
+    ctx.oblige("witness K1 replayed on the implementation", len(wit) == len(cases) and len(wit) >= 2)
+    present = [c for c in wit if c["observed"].get("finding_present")]
+    if present:
+        o = present[0]["observed"]
+        desc = "; ".join("%s level: %d invocations during the %d ms action (%d due), %d in all, scope %s" % (
+            c["input"]["level"], c["observed"]["invocations_during_action"], c["input"]["work_ms"], c["observed"]["invocations_due"],
+            c["observed"]["invocations_total"], c["observed"]["scope_status"]) for c in present)
+        if ctx.finding_status("K1") == "known":
+            ctx.known("K1", K1_WHAT + " [witness: Delay %d ms, check failing from call %d on; %s]"
+                      % (present[0]["input"]["delay_ms"], present[0]["input"]["fail_from_call"], desc))
+        else:
+            ctx.violation(dict(kind="finding-not-listed-as-known", finding="K1", why=K1_WHAT, observed=o, input=present[0]["input"],
+                               witnesses=[c["observed"] for c in present]))
+    else:
+        for c in wit:
+            ctx.notes.append("witness K1: the implementation no longer shows the finding (%s)" % c["observed"].get("what"))
+    return dict(witnesses=[dict(id=c["id"], **{k: c["observed"].get(k) for k in (
+        "finding_present", "invocations_during_action", "invocations_due", "invocations_total", "scope_status", "plan_status",
+        "offsets_ms_from_action_start")}) for c in wit])
 
 
 def run(ctx):
@@ -138,6 +178,10 @@ def run(ctx):
                 deferred_runs_per_trace=fw.histogram(stats["deferred_runs"]),
                 scopes_with_failed_cont_run=fw.histogram(stats["scopes_cont_failed"]),
                 scripted_failing_run_k={str(k): v for k, v in sorted(by_k.items())})
+    k1 = None if ctx.replay else check_k1(ctx)
     if "cov" in captured:
+        if k1:
+            captured["cov"]["known_finding_K1"] = k1
+            captured["cov"]["notes"] = ctx.notes[:40]
         write_evidence(captured["cov"], captured["asm"], captured["level"])
     return out
